@@ -358,6 +358,10 @@ def sContinue : Bytes := [72, 84, 84, 80, 47, 49, 46, 49, 32, 49, 48, 48, 32, 67
 /-- "HTTP/1.1 417 Too big\r\n\r\n" -/
 def sTooBig : Bytes := [72, 84, 84, 80, 47, 49, 46, 49, 32, 52, 49, 55, 32, 84, 111, 111, 32, 98, 105, 103, 13, 10, 13, 10]
 
+/-- how `readHeaders` stores a received field: `_headers[capitalized(name)] = value` (an empty value is kept;
+    `setHeader`, used for responses, would remove the field) -/
+def storeHeader (h : Dic) (name value : Bytes) : Dic := dicSet h (capitalized name) value
+
 structure HSt where
   s : Sock
   h : Dic
@@ -371,8 +375,12 @@ def headersStep (x : HSt) : M (Step HSt (Sock × Dic)) :=
   else do
     let c0 ← at? r.1 0
     if cIsSpace c0 then
-      -- folded line: appended to the *first* line's value (headerValue is not updated)
-      pure (.next { x with s := r.2, h := setHeader x.h x.name (x.value ++ trimmed r.1) })
+      -- continuation line (obs-fold): joined to the field's accumulated value with one space; an empty one is ignored
+      let more := trimmed r.1
+      if more.length == 0 then pure (.next { x with s := r.2 })
+      else
+        let v := if x.value.length == 0 then more else x.value ++ 32 :: more
+        pure (.next ⟨r.2, storeHeader x.h x.name v, x.name, v⟩)
     else
       let line := trimmed r.1
       match findByte 58 (cstr line) with
@@ -380,7 +388,7 @@ def headersStep (x : HSt) : M (Step HSt (Sock × Dic)) :=
       | some i => do
         let name ← substring? line 0 i
         let rest ← substring? line (i + 1) line.length
-        pure (.next ⟨r.2, setHeader x.h name (trimmed rest), name, trimmed rest⟩)
+        pure (.next ⟨r.2, storeHeader x.h name (trimmed rest), name, trimmed rest⟩)
 
 def readHeaders (s : Sock) : M (Sock × Dic) := iterate headersStep (s.inp.length + 2) ⟨s, [], [], []⟩
 
@@ -443,15 +451,20 @@ def validLength (v : Bytes) : Bool :=
   decide (1 ≤ v.length) && decide (v.length ≤ 10) && v.all (fun c => decide (48 ≤ c) && decide (c ≤ 57)) &&
     decide (myatoi 64 (cstr v) ≤ 2147483647)
 
+/-- `codings = header("Transfer-Encoding").toLowerCase().split(','); codings.last().trimmed() == "chunked"`:
+    the last transfer coding, ASCII case-insensitively (`toLowerCase` stops at a NUL) -/
+def isChunked (v : Bytes) : Bool :=
+  trimmed ((splitByte 44 ((cstr v).map toLower)).getLastD []) == sChunked
+
 /-- `HttpMessage::readBody()`: an invalid Content-Length gives the connection up; `Transfer-Encoding: chunked`
     overrides Content-Length (also `Content-Length: 0`); otherwise Content-Length frames the body -/
 def readBody (s : Sock) (h : Dic) : M (Sock × Bytes) :=
   let size := myatoi 32 (cstr (header h sContentLength))
-  let chunked := cstr (header h sTransferEncoding) == sChunked
+  let chunked := isChunked (header h sTransferEncoding)
   if hasHeader h sContentLength && !validLength (header h sContentLength) then pure ({ s with closed := true }, [])
   else if chunked then iterate (bodyStep true) (s.inp.length + 2) ⟨s, 0, []⟩
   else if hasHeader h sContentLength then
-    (if cstr (header h sContentLength) == [48] then pure (s, [])
+    (if size == 0 then pure (s, [])
      else iterate (bodyStep false) (s.inp.length + 2) ⟨s, size, []⟩)
   else pure (s, [])
 
